@@ -1115,7 +1115,13 @@ func (g *G) valueList(role string, lo int) *yaml.Node {
 		return g.typedNN(role)
 	}
 	n := SeqNode(g.coin("flow", 2))
-	for i, c := 0, g.intn("nvals", lo, 3); i < c; i++ {
+	c := g.intn("nvals", lo, 3)
+	if g.coin("longlist", 5) {
+		// a dimension with many values (beyond any small-list threshold or backend limit)
+		c = g.intn("nvalslong", 15, 40)
+		g.feat("dimension-with-many-values")
+	}
+	for i := 0; i < c; i++ {
 		n.Content = append(n.Content, g.typedNN(role))
 	}
 	return n
@@ -1183,6 +1189,14 @@ func (g *G) matrix() *yaml.Node {
 					l := g.valueList("dimval", lo)
 					if l.Kind != yaml.SequenceNode {
 						l = SeqNode(true, l)
+					}
+					if len(l.Content) < 15 && g.coin("longsetuplist", 3) {
+						// (this spelling is written back as a bare list when nothing else is in the matrix: the
+						// two readers must agree on lists of every length)
+						for i, c := 0, g.intn("nvalslong2", 15, 40); i < c; i++ {
+							l.Content = append(l.Content, g.typedNN("dimval"))
+						}
+						g.feat("dimension-with-many-values")
 					}
 					dims = []string{""}
 					if g.coin("anonbyname", 3) {
